@@ -10,6 +10,33 @@ structure Inv (cfg : Cfg) (t : T) : Prop where
 
 theorem streamWake_kind (t : T) (p : Bytes) : kindOf (streamWake t) p = kindOf t p := rfl
 
+/-- globbing delivers nothing -/
+theorem pats_fold_delivered (cfg : Cfg) : ∀ (pats : List Bytes) (t : T), (pats.foldl (globOne cfg) t).delivered = t.delivered := by
+  intro pats
+  induction pats with
+  | nil => intro t; rfl
+  | cons pat rest ih =>
+    intro t
+    simp only [List.foldl_cons]
+    rw [ih]
+    unfold globOne
+    generalize t.nodes.map (·.1) = ps
+    induction ps generalizing t with
+    | nil => rfl
+    | cons p ps ihp =>
+      simp only [List.foldl_cons]
+      rw [ihp]
+      split
+      · unfold tailPath; split <;> rfl
+      · rfl
+
+theorem after_poll_tailed_eq_eligible_delivered (cfg : Cfg) (t : T) :
+    (poll cfg t).delivered = t.delivered ++
+      t.pending.filter (fun d => kindOf t d.1 = some .file && t.streams.contains d.1) := by
+  unfold poll
+  rw [pats_fold_delivered]
+  rfl
+
 /-- C18 (after the next pattern poll): every existing regular file that matches a pattern and is
     not ignored is tailed; everything tailed is an existing regular file, matches a pattern and is
     not ignored (directories and ignored files never are); and there is exactly one stream per
@@ -19,7 +46,7 @@ theorem after_poll_tailed_eq_eligible (cfg : Cfg) (t : T) (hi : Inv cfg t) :
     t'.streams.Nodup ∧
     (∀ p, eligible cfg t p = true → p ∈ t'.streams) ∧
     (∀ p ∈ t'.streams, eligible cfg t p = true) ∧
-    t'.nodes = t.nodes ∧ t'.delivered = t.delivered := by
+    t'.nodes = t.nodes ∧ t'.delivered = (streamWake t).delivered := by
   intro t'
   have pp := pats_fold cfg cfg.patterns (streamWake t)
   have hnd : (streamWake t).streams.Nodup := hi.nodup.filter _
@@ -35,25 +62,7 @@ theorem after_poll_tailed_eq_eligible (cfg : Cfg) (t : T) (hi : Inv cfg t) :
       obtain ⟨hs, pat, hpat, hm⟩ := hi.sound p h.1
       exact ⟨⟨h.2, hs⟩, pat, hpat, hm⟩
     · exact ⟨⟨hk, hig⟩, pat, hpat, hm⟩
-  · have : ∀ (pats : List Bytes) (t : T), (pats.foldl (globOne cfg) t).delivered = t.delivered := by
-      intro pats
-      induction pats with
-      | nil => intro t; rfl
-      | cons pat rest ih =>
-        intro t
-        simp only [List.foldl_cons]
-        rw [ih]
-        unfold globOne
-        generalize t.nodes.map (·.1) = ps
-        induction ps generalizing t with
-        | nil => rfl
-        | cons p ps ihp =>
-          simp only [List.foldl_cons]
-          rw [ihp]
-          split
-          · unfold tailPath; split <;> rfl
-          · rfl
-    exact this _ _
+  · exact pats_fold_delivered cfg _ _
 
 /-- the invariant holds initially and is preserved by every operation: the same path is never
     tailed by two streams at once, at any point of any history -/
@@ -63,7 +72,7 @@ theorem inv_step (cfg : Cfg) (t : T) (hi : Inv cfg t) (op : Op) : Inv cfg (step 
   | mkdir p => simp only [step]; split <;> exact ⟨hi.nodup, hi.sound⟩
   | remove p => exact ⟨hi.nodup, hi.sound⟩
   | rename p q => simp only [step]; split <;> exact ⟨hi.nodup, hi.sound⟩
-  | appendLine p l => simp only [step]; split <;> exact ⟨hi.nodup, hi.sound⟩
+  | appendLine p l => simp only [step]; split <;> (try split) <;> exact ⟨hi.nodup, hi.sound⟩
   | poll =>
     have h := after_poll_tailed_eq_eligible cfg t hi
     refine ⟨h.1, ?_⟩
@@ -80,12 +89,27 @@ theorem never_two_streams_per_path (cfg : Cfg) (ops : List Op) : (run cfg {} ops
     | cons op rest ih => intro t h; exact ih _ (inv_step cfg t h op)
   exact (this ops {} ⟨by simp, by simp⟩).nodup
 
-/-- a line is delivered at most once per append: delivery happens only through `appendLine`,
-    which adds exactly one entry when the path is tailed and none otherwise -/
+/-- a line is delivered at most once per append: an append to a tailed file the stream holds is
+    delivered then (one entry); an append to a file that appeared at a tailed path since the stream
+    last looked is kept pending (one entry); anything else is not delivered -/
 theorem append_delivers_once (cfg : Cfg) (t : T) (p l : Bytes) :
     (step cfg t (.appendLine p l)).delivered = t.delivered ++
-      (if kindOf t p = some .file ∧ t.streams.contains p then [(p, l)] else []) := by
-  simp only [step]; split <;> simp
+      (if kindOf t p = some .file ∧ t.streams.contains p ∧ ¬ t.fresh.contains p then [(p, l)] else []) ∧
+    (step cfg t (.appendLine p l)).pending = t.pending ++
+      (if kindOf t p = some .file ∧ t.streams.contains p ∧ t.fresh.contains p then [(p, l)] else []) := by
+  simp only [step]
+  by_cases h1 : kindOf t p = some .file <;> by_cases h2 : t.streams.contains p = true <;>
+    by_cases h3 : t.fresh.contains p = true <;> simp_all
+
+/-- pending lines are delivered at the next poll exactly if their file is still at the tailed
+    path, and never again: the poll empties the pending list -/
+theorem pending_settled_at_poll (cfg : Cfg) (t : T) :
+    (poll cfg t).delivered = t.delivered ++
+      t.pending.filter (fun d => kindOf t d.1 = some .file && t.streams.contains d.1) ∧
+    (streamWake t).pending = [] := by
+  refine ⟨?_, rfl⟩
+  have := (after_poll_tailed_eq_eligible_delivered cfg t)
+  exact this
 
 /-- non-vacuity: two overlapping patterns, one ignored file, one directory -/
 example :
